@@ -1,5 +1,6 @@
 import SlugModel.Lemmas.TrEq_joinSubPath
 import SlugModel.Lemmas.TrEq_normalizeSubpath
+import SlugModel.Lemmas.TrEq_finalSourceAddr
 /-!
 # C11 (tie by translation)
 
@@ -8,6 +9,7 @@ translation of the Go function, regenerated from /repo on every run (harness/cmd
 the Go function changes the translated definition and this proof obligation no longer checks.
 
 An error result of the Go function is read as `(zero value, true)`, a normal one as `(value, false)`.
+An address (`RemoteSource`, `RegistrySource`) is read as the pair (package as printed, sub-path).
 -/
 namespace Slug
 
@@ -20,5 +22,12 @@ theorem C11_tie_joinSubPath (a b : Str) :
 theorem C11_tie_normalizeSubpath (g : Str) :
     Gen.normalizeSubpath g = (match normalizeSubpath g with | some r => (r, false) | none => ([], true)) :=
   gen_normalizeSubpath g
+
+/-- **C11_tie_finalSourceAddr.** The model's `finalSourceSub` (the sub-path of a registry address joined onto the
+sub-path of the remote address the registry named) is the sub-path of the translated
+`RegistrySource.FinalSourceAddr` (sourceaddrs/source_registry.go), whose package is that of the named address. -/
+theorem C11_tie_finalSourceAddr (s real : Str × Str) :
+    Gen.finalSourceAddr s real = (real.1, finalSourceSub s.2 real.2) :=
+  gen_finalSourceAddr s real
 
 end Slug
